@@ -299,6 +299,9 @@ def _read_call_of(body, op):
     return None
 
 
+_REGIONS = {}
+
+
 def contract(fx, body, bb, t, kind, descr):
     """G7: constructs that cannot panic because of a documented contract of a dependency; the shape is recognised, not the place."""
     n = callee_name(t) if t["k"] == "call" else None
@@ -321,6 +324,35 @@ def contract(fx, body, bb, t, kind, descr):
         lv = body.trace(a)
         if c is not None and 0 <= c <= 8 and lv and all(l.kind == "call" and callee_name(l.data[1]) == "ring::rsa::PublicKey::modulus_len" for l in lv):
             return ("G7-ring", "`modulus_len() * %d`: ring only accepts RSA keys of at most 8192 bits, so the product is < 2^16" % c)
+    if kind == "call" and n == "std::ops::Index::index" and fx.fns.get(body.key, {}).get("kind") == "Closure":
+        # judge the construct where the closure runs: in the region of the function it is written in
+        from ..cg import region_of_key, private_only_policy
+        rk = fx.root_of(fx.fns[body.key])["key"]
+        rb = _REGIONS.get((id(fx), rk))
+        if rb is None:
+            rb = _REGIONS[(id(fx), rk)] = region_of_key(fx, rk, 4, private_only_policy(fx))
+        same = [(i, tt) for (i, tt) in rb.calls() if callee_name(tt) == n and tt["at"] == t["at"] and rb.blocks[i].get("origin_key") == body.key]
+        if len(same) == 1:
+            r = contract(fx, rb, same[0][0], same[0][1], kind, descr)
+            if r is not None:
+                return r
+    if kind == "call" and n == "std::ops::Index::index":
+        tys = t.get("arg_tys") or ["", ""]
+        # reviewed premises, recognised by what is indexed with what (not by the function they are written in)
+        if "HashMap<std::string::String, models::link::metadata::LinkMetadata>" in tys[0] and tys[1].lstrip("&") == "str":
+            kl = body.trace(t["args"][1])
+            if kl and all(l.kind == "call" and (callee_name(l.data[1]) or "").endswith("SupplyChainItem::name") and
+                          all(x.kind == "param" and x.path[:1] == (("f", "steps"),) for x in body.trace(l.data[1]["args"][0])) for l in kl) \
+                    and all(l.kind == "param" for l in body.trace(t["args"][0])):
+                return ("G8-premise", "reduced-link map indexed by the name of one of the layout's own steps: every step name has an entry - the "
+                        "threshold stage inserts one entry per layout step, the sub-layout and reduce stages keep every key or return Err "
+                        "(C02/D5 checks the producer side)")
+        if "BTreeMap<models::helpers::VirtualTargetPath, std::collections::HashMap<crypto::HashAlgorithm, crypto::HashValue>>" in tys[0] \
+                and tys[1].lstrip("&") == "models::helpers::VirtualTargetPath":
+            kl = body.trace(t["args"][1])
+            if kl and all(l.kind == "param" and l.path == (("elem",),) and "BTreeSet<models::helpers::VirtualTargetPath>" in body.local_ty(l.data) for l in kl):
+                return ("G8-premise", "artifact map indexed by an element of the artifact queue: queue elements are canonicalised keys of the same "
+                        "link's artifact map, and the map is re-keyed by the same canonicalisation (single call site in the rule engine)")
     if kind == "call" and n == "std::result::Result::unwrap":
         lv = body.trace(t["args"][0], (), lambda tt: callee_name(tt) == "path_clean::clean",
                         {"std::ffi::OsString::into_string": [((), 0, ())], "std::path::PathBuf::into_os_string": [((), 0, ())]})
@@ -562,23 +594,49 @@ def _const_bounded(body, o, depth=0):
 
 # Reviewed one-construct suppressions (G5): (function path, construct descriptor) -> reason.
 REVIEWED = {
-    ("rulelib::verify_match_rule", "index on &BTreeMap<VirtualTargetPath, HashMap<HashAlgorithm, HashValue>> by &VirtualTargetPath"):
-        "queue elements are canonicalised keys of the same link's artifact map, and the (shadowed) map is re-keyed by the same "
-        "canonicalisation, falling back to the raw key: every queue element is a key (single private call site in apply_rules_on_link)",
-    ("verifylib::get_summary_link", "index on &HashMap<String, LinkMetadata> by &str"):
-        "premise: every step name has an entry in the reduced map - the threshold stage inserts one entry per layout step, "
-        "the sub-layout and reduce stages keep every key or return Err (C02/D5 checks the producer side)",
 }
 
 # Recursion table (D2): frozenset of function paths -> bound
 RECURSION = {
-    frozenset(["interchange::cjson::convert"]):
-        "recursion depth = nesting depth of the serde_json::Value, bounded by serde_json's 128-level parse limit for parsed input",
-    frozenset(["interchange::cjson::Value::write"]):
-        "recursion depth = nesting depth of the canonical tree built by convert (same bound)",
-    frozenset(["verifylib::in_toto_verify", "verifylib::verify_sublayouts"]):
+    frozenset(["verifylib::in_toto_verify"]):
         "one directory level (<step>.<keyid8>/) per recursion; bounded by the path-length limit of the file system",
 }
+
+
+def structural_recursion(fx, comp):
+    """A self-recursive function whose every recursive call passes, in some parameter position k, a proper sub-component of its
+    own k-th parameter (an element / field of it): the depth is the nesting depth of that argument - for the canonicaliser the
+    JSON tree, which serde_json limits to 128 levels for parsed input."""
+    roots = {fx.root_of(fx.fns[x])["key"] for x in comp}
+    if len(roots) != 1:
+        return None
+    k = next(iter(roots))          # one function, possibly together with closures of its own
+    f = fx.fns[k]
+    if len(comp) == 1:
+        b = body_of(fx, k)
+    else:
+        from ..cg import region_of_key, private_only_policy
+        b = region_of_key(fx, k, 4, private_only_policy(fx))      # closures inlined where they run; the recursive call stays a call
+    sites = [(i, t) for (i, t) in b.calls() if (t.get("resolved_key") or t.get("callee_key")) == k]
+    # the function passed as an item to an element-wise adaptor over a component of its own argument (`arr.iter().map(convert)`)
+    items = [(i, t) for (i, t) in b.calls() if any((op_const(a) or {}).get("fn_key") == k for a in t["args"])]
+    for (i, t) in items:
+        if callee_name(t) not in ("std::iter::Iterator::map", "std::iter::Iterator::for_each", "std::iter::Iterator::try_for_each"):
+            return None
+        lv = b.trace(t["args"][0])
+        if not (lv and all(l.kind == "param" and l.path for l in lv)):
+            return None
+    if not sites and not items:
+        return None        # recursion through a callback: not visible here
+    for (i, t) in sites:
+        ok = False
+        for ai, a in enumerate(t["args"]):
+            lv = b.trace(a)
+            if lv and all(l.kind == "param" and l.data == ai + 1 and l.path for l in lv):
+                ok = True
+        if not ok:
+            return None
+    return "structural recursion: each of the %d recursive use(s) descends into a component of the function's own argument" % (len(sites) + len(items))
 
 
 def recursion_entry(fx, comp):
@@ -668,7 +726,10 @@ def run(ctx):
         derived = all(fx.fns[k].get("exp") for k in comp)
         key = " <-> ".join(sorted(paths))
         rk = recursion_entry(fx, comp)
-        if rk is not None:
+        sr = structural_recursion(fx, comp)
+        if sr is not None:
+            ctx.ok("C14/D2", key, sr + " (depth = nesting depth of the value; serde_json bounds parsed input at 128 levels)", f0["at"])
+        elif rk is not None:
             ctx.ok("C14/D2", key, "bounded: " + RECURSION[rk], f0["at"])
         elif all(_is_serde_impl(fx.fns[k]) for k in comp):
             ctx.ok("C14/D2", key, "call-graph cycle introduced by the callback over-approximation between serde impl methods of one "
